@@ -806,7 +806,33 @@ fn check_vec(ctx: &mut Ctx, c: &VecCase) -> Outcome {
     std::fs::write("c/ref", b"x").unwrap();
     let mut args: Vec<String> = c.flags.clone();
     args.extend(c.roots.iter().cloned());
-    args.extend(c.tokens.iter().cloned());
+    // placeholders of the probes: "@BIG:n@" = one word of n bytes, "@PARENS:n@" = n opening
+    // parentheses, -true, n closing ones
+    for t in &c.tokens {
+        if let Some(n) = t.strip_prefix("@BIG:").and_then(|r| r.strip_suffix('@')).and_then(|n| n.parse::<usize>().ok()) {
+            args.push("x".repeat(n));
+        } else if let Some(n) = t.strip_prefix("@PARENS:").and_then(|r| r.strip_suffix('@')).and_then(|n| n.parse::<usize>().ok()) {
+            args.extend(std::iter::repeat("(".to_string()).take(n));
+            args.push("-true".into());
+            args.extend(std::iter::repeat(")".to_string()).take(n));
+        } else {
+            args.push(t.clone());
+        }
+    }
+    let shown = |a: &[String]| -> String {
+        let mut v: Vec<String> = vec![];
+        let mut i = 0;
+        while i < a.len() {
+            let mut j = i;
+            while j < a.len() && a[j] == a[i] {
+                j += 1;
+            }
+            let w = if a[i].len() > 80 { format!("<{} bytes: {:?}...>", a[i].len(), &a[i][..20]) } else { format!("{:?}", a[i]) };
+            v.push(if j - i > 3 { format!("{w} x{}", j - i) } else { vec![w; j - i].join(" ") });
+            i = j;
+        }
+        v.join(" ")
+    };
     // without a starting point find walks '.', i.e. the sandbox root: fine (it only holds c/)
     let multibyte = c.tokens.iter().any(|t| !t.is_ascii());
     let (status, visited, diag);
@@ -825,7 +851,8 @@ fn check_vec(ctx: &mut Ctx, c: &VecCase) -> Outcome {
             let stderr = lossy(&o.stderr);
             let loc = stderr.lines().find(|l| l.contains("panicked at")).map(|l| l.split("panicked at ").nth(1).unwrap_or("?").trim_end_matches(':').to_string()).unwrap_or_else(|| format!("signal-{:?}", o.signal));
             let loc_short: String = loc.rsplit("/src/").next().unwrap_or(&loc).split(':').take(2).collect::<Vec<_>>().join(":");
-            return fail(format!("C11:panic:{loc_short}"), format!("find {args:?} (binary)\nexit {:?} signal {:?}\nstderr {:?}", o.code, o.signal, stderr));
+            let loc_short = if stderr.contains("overflowed its stack") { format!("stack-overflow:{}", if args.iter().filter(|a| *a == "(").count() >= 500 { "nested-parentheses" } else { "other-shape" }) } else { loc_short };
+            return fail(format!("C11:panic:{loc_short}"), format!("find {} (binary)\nexit {:?} signal {:?}\nstderr {:?}", shown(&args), o.code, o.signal, stderr.chars().take(2000).collect::<String>()));
         }
         status = o.code.unwrap_or(-1);
         visited = !o.stdout.is_empty();
@@ -833,7 +860,7 @@ fn check_vec(ctx: &mut Ctx, c: &VecCase) -> Outcome {
     } else {
         let o = run_in_process(ctx, &args);
         if let Some(p) = o.panic {
-            return fail(panic_sig(&p), format!("find {args:?}\npanic: {p}\nstderr {:?}", lossy(&o.stderr)));
+            return fail(panic_sig(&p), format!("find {}\npanic: {p}\nstderr {:?}", shown(&args), lossy(&o.stderr)));
         }
         status = o.status;
         visited = !o.stdout.is_empty() || o.rec_ran;
@@ -848,7 +875,7 @@ fn check_vec(ctx: &mut Ctx, c: &VecCase) -> Outcome {
         .class_if(c.binary && c.raw_bytes_at.is_some(), "non-utf8-argument")
         .class_if(c.tokens.iter().any(|t| t == "-delete"), "with-delete")
         .class_if(c.tokens.iter().any(|t| t == "-ls" || t == "-fls"), "with-ls")
-        .sample(json!({"cmdline": format!("find {}", args.join(" ")), "exit": status}))
+        .sample(json!({"cmdline": format!("find {}", shown(&args)), "exit": status}))
         .ok()
 }
 
@@ -895,6 +922,20 @@ fn probes() -> Vec<VecCase> {
         mk(vec!["-samefile", "c/r/lnk_loop"]),
         mk(vec!["-newer", "c/r/lnk_dangling"]),
         mk(vec!["-files0-from", "c/ref"]),
+        // fixed arguments of a batching action that cannot fit into any command line
+        mk(vec!["-exec", "true", "@BIG:3000000@", "{}", "+"]),
+        mk(vec!["-execdir", "true", "@BIG:3000000@", "@BIG:3000000@", "{}", "+"]),
+        mk(vec!["-exec", "true", "@BIG:3000000@", "{}", ";"]),
+        mk(vec!["-name", "@BIG:3000000@"]),
+        mk(vec!["-regex", "@BIG:300000@"]),
+        mk(vec!["-printf", "@BIG:3000000@"]),
+        // nesting (through the binary: an exhausted stack cannot be caught in process)
+        VecCase { flags: vec![], roots: vec![s("c/r")], tokens: vec![s("@PARENS:200@")], binary: true, raw_bytes_at: None },
+        VecCase { flags: vec![], roots: vec![s("c/r")], tokens: vec![s("@PARENS:2000@")], binary: true, raw_bytes_at: None },
+        VecCase { flags: vec![], roots: vec![s("c/r")], tokens: vec![s("@PARENS:20000@")], binary: true, raw_bytes_at: None },
+        VecCase { flags: vec![], roots: vec![s("c/r")], tokens: vec![s("@PARENS:90000@")], binary: true, raw_bytes_at: None },
+        VecCase { flags: vec![], roots: vec![s("c/r")], tokens: std::iter::repeat(s("!")).take(90000).chain([s("-true")]).collect(), binary: true, raw_bytes_at: None },
+        VecCase { flags: vec![], roots: vec![s("c/r")], tokens: std::iter::repeat([s("-true"), s("-o")]).take(40000).flatten().chain([s("-true")]).collect(), binary: true, raw_bytes_at: None },
         VecCase { flags: vec![], roots: vec![s("c/r")], tokens: vec![s("-name"), s("x")], binary: true, raw_bytes_at: Some(1) },
         VecCase { flags: vec![], roots: vec![s("c/r")], tokens: vec![s("-print")], binary: true, raw_bytes_at: Some(0) },
     ]
